@@ -97,6 +97,9 @@ pub struct Chan {
     pub recv_calls: usize,
     pub recv_bytes: usize,
     pub write_mode: WriteMode,
+    /// In any write mode: let the writing task yield once after every accepted write (see
+    /// `WriteMode::YieldAfter`), also after partial ones.
+    pub yield_after_write: bool,
     pub pending_used: usize,
     pub write_waker: Option<Waker>,
     /// Fail the `n`-th sendmsg call (0-based) with this error.
@@ -127,6 +130,7 @@ impl Default for Chan {
             recv_calls: 0,
             recv_bytes: 0,
             write_mode: WriteMode::All,
+            yield_after_write: false,
             pending_used: 0,
             write_waker: None,
             write_fault: None,
@@ -497,7 +501,7 @@ impl Future for SendFut<'_> {
             c.q.push_back(chunk);
             c.read_waker.take()
         };
-        let yield_after = c.write_mode == WriteMode::YieldAfter;
+        let yield_after = c.write_mode == WriteMode::YieldAfter || c.yield_after_write;
         drop(c);
         if let Some(w) = w {
             w.wake();
